@@ -227,3 +227,11 @@ def oracle_cost(case):
 def brute_cost(case):
     """number of global states the plain enumeration of the Lean spec visits"""
     return (2 ** len(case["reads"])) * n_local_states(case) ** case["n_cols"]
+
+
+def impl_cost(case):
+    """~ number of array updates of the implementation-structured Lean model (`c08.impl`): per column
+    2^coverage * transmissions * assignments * (transmissions + individuals), backward + forward (+ re-computation)"""
+    nt = 4 ** len(case["triples"])
+    na = 2 ** (2 * (case["n_ind"] - len(case["triples"])))
+    return sum((2 ** c) * nt * na * (2 * nt + case["n_ind"] + 4) for c in coverage(case)) * 2
